@@ -30,6 +30,12 @@ def run_one(scen):
     t0 = time.time()
     res = {"id": scen["id"], "family": scen.get("family"), "ok": True}
     try:
+        if scen.get("c06tree"):
+            f, st = c06_tree(scen)
+            res.update(cmds=[], out=[], steps=st.get("states", 0), unrep="c06-tree-probe", compile_error=None, findings=f,
+                       stats={"c06tree": st})
+            res["wall"] = time.time() - t0
+            return res
         if scen.get("malformed"):
             res.update(cmds=[], out=[], steps=0, unrep="malformed-probe", compile_error=None,
                        findings=malformed_probe(scen), stats={})
@@ -84,6 +90,154 @@ def drive(run, scen):
             run.probe_reset()
     run.end()
     return n
+
+
+def c06_optimum(jobs, want_order=False):
+    """exact optimum of a classic instance, independent of the library: branch over operation sequences"""
+    nj = len(jobs)
+    nm = 1 + max(m for ops in jobs for m, _ in ops)
+    best = [10 ** 9]
+    order = [None]
+
+    def rec(nxt, jr, mr, seq=()):
+        if all(nxt[j] == len(jobs[j]) for j in range(nj)):
+            if max(jr + [0]) < best[0]:
+                best[0] = max(jr + [0])
+                order[0] = seq
+            return
+        if max(jr + [0]) >= best[0]:
+            return
+        for j in range(nj):
+            if nxt[j] < len(jobs[j]):
+                m, d = jobs[j][nxt[j]]
+                st = max(jr[j], mr[m])
+                n2, j2, m2 = list(nxt), list(jr), list(mr)
+                n2[j] += 1
+                j2[j] = m2[m] = st + d
+                rec(n2, j2, m2, seq + (j,))
+    rec([0] * nj, [0] * nj, [0] * nm)
+    if want_order:
+        return best[0], order[0]
+    return best[0]
+
+
+def c06_guided(env, mw, jobs, order, is_done):
+    """accept a machine start only when it is the next one of the target order on that machine"""
+    from jobshoplab.utils.utils import get_id_int
+    # per machine: the sequence of jobs in target order
+    seqs, nxt = {}, [0] * len(jobs)
+    for j in order:
+        m = jobs[j][nxt[j]][0]
+        nxt[j] += 1
+        seqs.setdefault(m, []).append(j)
+    started = {m: 0 for m in seqs}
+    result, actions = env.state, ()
+    for _ in range(4000):
+        if len(result.possible_transitions) == 0:
+            if is_done(result.state, env.instance):
+                return result.state.time.time, actions
+            return None, actions
+        tr = result.possible_transitions[0]
+        a = 1
+        if tr.component_id.startswith("m-"):
+            m, j = get_id_int(tr.component_id), get_id_int(tr.job_id)
+            want = seqs.get(m, [])
+            a = 1 if started.get(m, 0) < len(want) and want[started[m]] == j else 0
+        try:
+            nres, _ = mw.step(result, a)
+        except Exception:  # noqa
+            return None, actions
+        if not nres.success:
+            return None, actions
+        if a == 1 and tr.component_id.startswith("m-"):
+            started[get_id_int(tr.component_id)] += 1
+        result, actions = nres, actions + (a,)
+    return None, actions
+
+
+def c06_tree(scen):
+    """C06: the whole accept/decline tree of a tiny classic instance on the real environment
+    (through its middleware, memoised on state + offers); smallest terminal makespan against an
+    independent optimum, the environment's lower bound against that optimum, and every terminal
+    makespan against the optimum (no shortcut)"""
+    import impl_trace
+    import signal
+    from jobshoplab import JobShopLabEnv
+    from jobshoplab.compiler import Compiler
+    from jobshoplab.compiler.repos import DslStrRepository
+    from jobshoplab.state_machine.core.state_machine.state import is_done
+    jobs = [[tuple(o) for o in j] for j in scen["c06tree"]]
+    opt, order = c06_optimum(jobs, want_order=True)
+    cfg = impl_trace.make_config(scen["cfg"])
+    out = []
+
+    def F(sig, detail):
+        out.append({"property": "C06", "sig": sig, "detail": detail, "step": None, "scenario": scen["id"], "facts": {"always": True}})
+    signal.signal(signal.SIGALRM, impl_trace._alarm)
+    signal.alarm(scen.get("tree_timeout", 240))
+    stats = {"optimum": opt, "states": 0}
+    try:
+        repo = DslStrRepository(scen["dsl"], "warning", cfg)
+        env = JobShopLabEnv(config=cfg, compiler=Compiler(cfg, "warning", repo=repo))
+        env.reset(seed=0)
+        mw = env.state_simulator
+        horizon = env.max_allowed_time
+        seen, stack = set(), [(env.state, ())]
+        best, best_actions, terminals = None, None, 0
+        # guided run first: realise the optimal operation order found by the independent search
+        g = c06_guided(env, mw, jobs, order, is_done)
+        stats["guided"] = g[0]
+        if g[0] is not None:
+            if g[0] < opt:
+                F("terminal-makespan-below-optimum", f"jobs {jobs}: makespan {g[0]} < optimum {opt} via actions {g[1]}")
+            best, best_actions = g
+        while stack:
+            result, actions = stack.pop()
+            key = (repr(result.state), repr(result.possible_transitions))
+            if key in seen:
+                continue
+            seen.add(key)
+            if len(result.possible_transitions) == 0:
+                if is_done(result.state, env.instance):
+                    terminals += 1
+                    mk = result.state.time.time
+                    if mk < opt:
+                        F("terminal-makespan-below-optimum", f"jobs {jobs}: makespan {mk} < optimum {opt} via actions {actions}")
+                        break
+                    if best is None or mk < best:
+                        best, best_actions = mk, actions
+                continue
+            # nothing beyond the best makespan found so far can improve it, and a terminal state below
+            # the optimum would lie below it too
+            if result.state.time.time > (horizon if best is None else best):
+                continue
+            if len(seen) > scen.get("tree_cap", 40000):
+                stats["capped"] = True
+                break
+            for a in (0, 1):
+                try:
+                    nxt, _ = mw.step(result, a)
+                except impl_trace.StepTimeout:
+                    raise
+                except Exception:  # noqa  (failures of single steps are C05's matter)
+                    continue
+                if nxt.success:
+                    stack.append((nxt, actions + (a,)))
+        stats.update(states=len(seen), terminals=terminals, best=best, lower_bound=env.lower_bound)
+        if not out:
+            if stats.get("capped"):
+                pass
+            elif best is None:
+                F("no-terminal-state-reachable", f"jobs {jobs}: no accept/decline sequence finishes the instance")
+            elif best != opt:
+                F("optimum-not-reachable", f"jobs {jobs}: smallest reachable makespan {best} (actions {best_actions}), optimum {opt}")
+            if env.lower_bound > opt:
+                F("lower-bound-exceeds-optimum", f"jobs {jobs}: lower bound {env.lower_bound} > optimum {opt}")
+    except impl_trace.StepTimeout:
+        stats["timeout"] = True
+    finally:
+        signal.alarm(0)
+    return out, stats
 
 
 def malformed_probe(scen):
